@@ -340,6 +340,105 @@ fn taxonomy_table(t: &mut Tally) {
     }
 }
 
+/// Two requests of one client around UTC midnight, back to back on one thread, the server clock at midnight: the first is
+/// conformant (or at least passes the scope rule); the second presents the *same Credential text* (scope day D) with a
+/// timestamp on the other side of midnight, still inside the window — signed with the key of either day. Its scope day
+/// is not its own day: it is refused by the scope rule, with that rule's class, before the key provider hears of it,
+/// whatever was validated just before. Also run in the other order and with a second request that is conformant for its own day.
+pub fn around_midnight(seed: u64, shard: u64, n: u64, prop: &'static str) -> Tally {
+    use crate::gen::{make_case, Overrides};
+    let mut t = Tally::new();
+    for i in 0..n {
+        let mut r = Rng::keyed(seed, prop, "midnight", shard, i);
+        let cfg0 = gen_cfg(&mut r);
+        let l = gen_logical(&mut r, &cfg0, &GenOpts::default());
+        let midnight = (l.t.s.div_euclid(86400) + 1) * 86400;
+        let before = midnight - 1 - r.below(400) as i64;
+        let after = midnight + r.below(400) as i64;
+        let (ta, tb) = if r.coin() {
+            (before, after)
+        } else {
+            (after, before)
+        };
+        let mut la = l.clone();
+        la.t.s = ta;
+        la.t.ns = 0;
+        let mut lb = l.clone();
+        lb.t.s = tb;
+        lb.t.ns = 0;
+        let mut sr = Rng::keyed(seed, prop, "midnight-spell", shard, i);
+        let mut sp = Speller {
+            r: &mut sr,
+            level: 0,
+        };
+        let (ca, fa) = make_case(&la, &cfg0, &mut sp, &Overrides::default(), (midnight - ta) as i128 * 1_000_000_000);
+        let stale = i % 4 != 3;
+        let ov = Overrides {
+            credential: if stale {
+                Some(fa.credential.clone())
+            } else {
+                None
+            },
+            ..Default::default()
+        };
+        let (cb, _) = make_case(&lb, &cfg0, &mut sp, &ov, (midnight - tb) as i128 * 1_000_000_000);
+        let ra = execute(&ca);
+        let rb = execute(&cb);
+        t.eval();
+        t.eval();
+        if matches!(ra.outcome, Outcome::NotBuilt(_)) || matches!(rb.outcome, Outcome::NotBuilt(_)) {
+            t.count("midnight/not_built_by_http");
+            continue;
+        }
+        for (which, case, rec) in [("first", &ca, &ra), ("second", &cb, &rb)] {
+            let Some(j) = judge(case, rec) else {
+                continue;
+            };
+            match &j.agreement {
+                Agreement::Mismatch {
+                    detail,
+                    known,
+                } => {
+                    t.violate(violation(
+                        "precedence",
+                        &format!("midnight|{}|{}", which, j.analysis.stage().name()),
+                        format!("{} of two requests of one client around UTC midnight (timestamps {} then {}, server clock {}, second request {}): {}", which, ta, tb, midnight, if stale { "with the first one's Credential text" } else { "with its own day's scope" }, detail),
+                        case,
+                        *known,
+                    ));
+                }
+                Agreement::Silent(w) => t.count(&format!("silent: {}", w)),
+                Agreement::Agree => {
+                    if j.analysis.stage() < Stage::Provider && !matches!(j.analysis.verdict, Verdict::DontCare { .. }) && rec.calls() > 0 {
+                        t.violate(violation(
+                            "precedence",
+                            &format!("midnight|{}|provider-asked", which),
+                            format!("{} of two requests around UTC midnight is refused at '{}' but the key provider was asked {} time(s)", which, j.analysis.stage().name(), rec.calls()),
+                            case,
+                            None,
+                        ));
+                        continue;
+                    }
+                    if which == "second" {
+                        if stale && j.analysis.stage() == Stage::Scope {
+                            t.count("midnight/second_with_the_other_days_scope_refused_by_the_scope_rule");
+                            t.nontrivial(case.hash());
+                        } else if !stale && rec.outcome.is_ok() {
+                            t.count("midnight/second_with_its_own_days_scope_accepted");
+                            t.nontrivial(case.hash());
+                        } else {
+                            t.count("midnight/second_other");
+                        }
+                    } else if rec.outcome.is_ok() {
+                        t.count("midnight/first_accepted");
+                    }
+                }
+            }
+        }
+    }
+    t
+}
+
 pub fn run(tier: Tier) -> i32 {
     let mut ctx = Ctx::new("C13", tier);
     let pre = preflight();
@@ -347,6 +446,10 @@ pub fn run(tier: Tier) -> i32 {
     let mut tally = ctx.par(16, |s| shard(seed, s, tier));
     let se = ctx.par(32, |s| structured_edits(seed, s, tier.n(3000, 120_000)));
     tally.merge(se);
+    let am = ctx.par(16, |s| around_midnight(seed, s, tier.n(400, 15_000), "C13"));
+    tally.merge(am);
+    ctx.gate("second request around UTC midnight with the first one's Credential text: refused by the scope rule", tally.get("midnight/second_with_the_other_days_scope_refused_by_the_scope_rule"), tier.n(2000, 80_000));
+    ctx.gate("second request around UTC midnight with its own day's scope: accepted", tally.get("midnight/second_with_its_own_days_scope_accepted"), tier.n(500, 20_000));
     taxonomy_table(&mut tally);
     // thorough: coverage-guided workload (libFuzzer) with every monitor as the oracle
     let san = crate::run::fold_sanitizer_results(&mut tally, false);
